@@ -556,6 +556,9 @@ def updateLoadAv (w : W) : W :=
   else if w.now < w.loadLast then { w with loadLast := w.now }      -- fix commit; before: consts[negative]
   else { w with loadLast := w.now }
 
+/-- `ip->iflags & HAS_PROCESS_INPUT` -/
+def hasPIOf (w : W) (id : Nat) : Bool := match findConn w id with | some c => c.hasPI | none => false
+
 /-- process_input apply of process_user_command() -/
 def inputStage (rh : HookFn) (w : W) (cg : Oid) (line : String) (hasPI : Bool) : R :=
   if hasPI then rh (emit w (.tInput cg line)) cg .input else (w, false)
@@ -576,7 +579,7 @@ def serveCommand (rh : HookFn) (w : W) (c0 : Conn) : W × Bool × Bool :=
   | none => (w, true, false)
   | some id =>
     let w := updateLoadAv (useConn w id)        -- clear_notify (ip); update_load_av ()
-    let hasPI := match findConn w id with | some c => c.hasPI | none => false
+    let hasPI := hasPIOf w id
     let r1 := inputStage rh w cg line hasPI
     if r1.2 then (r1.1, true, true) else
     if hasPI && r1.1.inter cg ≠ some id then (r1.1, true, false) else      -- VALIDATE_IP
